@@ -790,6 +790,7 @@ package url
 //@   ensures keptArrays(u)
 //@   ensures fragment == "" ==> u.fragment == nil   [C05]
 //@   ensures (fragment != "" || u.query != nil || !u.path.opaque) ==> sameButFragment(u)   [C05]
+//@   ensures sameButFragmentPath(u)   [C05]
 //@   ensures (fragment == "" && u.query == nil && u.path.opaque) ==> u.path.p[0] == old(u.path.p[0])[0:specTrimRHi(old(u.path.p[0]), " ")]   [C05,C03 strip-only-when-both-null]
 //@ func (*Url).SetSearch
 //@   requires wf(u)
